@@ -106,6 +106,12 @@ def check(ctx):
                "entered start that is kept as it is can lie after the end", floor=1)
     ctx.guarded(o, lambda o: backward_leaf_start(ctx, o, PassShape(ctx, BWD)))
 
+    o = ctx.ob('forward_leaf_start_is_the_search_result', 'R8',
+               "forward: the start a leaf finally gets is the moment returned by the availability search (start of the day plus the "
+               "share of it that is already booked); a start post-processed afterwards (max with another bound, a shift) leaves that "
+               "encoding while the end is still `last day + booked share`, so it can lie after the end", floor=1)
+    ctx.guarded(o, lambda o: forward_leaf_start(ctx, o, PassShape(ctx, FWD)))
+
     o = ctx.ob('forward_leaf_end_after_start', 'R8',
                "forward: a computed leaf end is max(fill(.., start', ..), now()) with start' >= task.start, and the fill returns start' "
                "or a day >= midnight(start') plus a non-negative fraction", floor=1)
@@ -183,7 +189,7 @@ def _clearing_loops(f):
     return out
 
 
-def cleared(ctx, o, S):
+def cleared(ctx, o, S, fields=FIELDS):
     """the clearing loop lives in a helper called from calc (today: __prepare_tasks) or in calc itself"""
     prog = ctx.prog
     calc = prog.func(S['calc'])
@@ -273,7 +279,7 @@ def cleared(ctx, o, S):
             cleared_fields[tgt.attr] = st
         else:
             o.refute(prep, st, st, f"{tgt.attr} is cleared under {facts.cond_texts(conds)}; expected exactly `task has children`")
-    missing = [f for f in FIELDS if f not in cleared_fields]
+    missing = [f for f in fields if f not in cleared_fields]
     if missing:
         o.refute(prep, lp, 'cleared fields', "summary fields not cleared: " + ', '.join(missing))
     else:
@@ -642,6 +648,32 @@ def setters_store_none(ctx, o):
             o.site(f, f.node, f"Task.{attr} = None is stored")
 
 
+def _midnight_of(e):
+    """facts.is_midnight_of plus the keyword spelling datetime(year=d.year, month=d.month, day=d.day[, hour=0, ..])"""
+    m = facts.is_midnight_of(e)
+    if m is not None:
+        return m
+    if isinstance(e, ast.Call) and isinstance(e.func, ast.Name) and e.func.id == 'datetime':
+        parts = dict(zip(('year', 'month', 'day', 'hour', 'minute', 'second', 'microsecond'), e.args))
+        for k in e.keywords:
+            if k.arg is None or k.arg in parts:
+                return None
+            parts[k.arg] = k.value
+        if not {'year', 'month', 'day'} <= set(parts) or set(parts) - {'year', 'month', 'day', 'hour', 'minute', 'second', 'microsecond'}:
+            return None
+        base = None
+        for nm in ('year', 'month', 'day'):
+            v = parts[nm]
+            if not (isinstance(v, ast.Attribute) and v.attr == nm):
+                return None
+            if base is not None and not same(base, v.value):
+                return None
+            base = v.value
+        if all(isinstance(parts[k], ast.Constant) and parts[k].value == 0 for k in parts if k not in ('year', 'month', 'day')):
+            return base
+    return None
+
+
 def per_day_lookup(ctx, o):
     prog = ctx.prog
     f = prog.func('calendar.DirectCalendar.get_available_units')
@@ -665,7 +697,7 @@ def per_day_lookup(ctx, o):
     for n, k in keys:
         at = cfg.node_containing(n)
         kx = ex.expand(k, at) if at is not None else k
-        mid = facts.is_midnight_of(kx)
+        mid = _midnight_of(kx)
         if mid is None and isinstance(kx, ast.Call) and isinstance(kx.func, ast.Name) and kx.func.id == '_day_start' and len(kx.args) == 1:
             mid = kx.args[0]
         if mid is not None and isinstance(mid, ast.Name) and mid.id == date_p:
@@ -676,6 +708,30 @@ def per_day_lookup(ctx, o):
                               f"day's capacity (asked with midnight) differ for one and the same day and the start can pass the end")
         else:
             o.undecided(f, n, n, f"lookup key `{src(kx)[:50]}` is neither the start of the day of `{date_p}` nor `{date_p}` itself")
+
+
+def forward_leaf_start(ctx, o, ps: PassShape):
+    search = ctx.prog.func(ps.S['search'])
+    sts = [x for x in ps.stores('start') if x[3]['milestone'] is False and x[3]['leaf'] is True and x[3]['is_none'].get('start') is True]
+    if not sts:
+        o.undecided(ps.f, ps.f.node, 'leaf start', "no store to task.start recognised in the region [not milestone, leaf, start is None]")
+        return
+    # the store(s) no other store of the region follows
+    last = [x for x in sts if not any(y is not x and ps.cfg.node_of(y[0]) is not None and ps.cfg.node_of(x[0]) is not None and
+                                      ps.cfg.node_of(y[0]) is not ps.cfg.node_of(x[0]) and ps.cfg.can_reach(ps.cfg.node_of(x[0]), ps.cfg.node_of(y[0]))
+                                      for y in sts)]
+
+    def is_search(e):
+        return isinstance(e, ast.Call) and isinstance(e.func, ast.Attribute) and unmangle(e.func.attr) == search.name
+    for st, tgt, val, reg in last:
+        v = ps.ex.expand(val, ps.cfg.node_of(st))
+        if is_search(v):
+            o.site(ps.f, st, "leaf start = search(..)")
+        elif any(is_search(x) for x in ast.walk(v)):
+            o.refute(ps.f, st, st, f"the leaf start is `{src(v)[:90]}`: the search result is post-processed, so the start is no longer `day start + "
+                                   f"booked share of the day` while the end still is - a start pushed later this way can pass the end of a short task")
+        else:
+            o.undecided(ps.f, st, st, f"the final leaf start `{src(v)[:80]}` is not the result of the availability search")
 
 
 def backward_leaf_start(ctx, o, ps: PassShape):
@@ -692,10 +748,39 @@ def backward_leaf_start(ctx, o, ps: PassShape):
     def from_fill(e):
         args = facts.flatten_lattice(e, 'min') or [e]
         return any(isinstance(a, ast.Call) and isinstance(a.func, ast.Attribute) and unmangle(a.func.attr) == fill.name for a in args)
+    pt0 = ps.prereq_term()
+
+    def end_or_earlier(e):
+        """task.end, or a min() that contains it: never after the end"""
+        args = facts.flatten_lattice(e, 'min') or [e]
+        return any(match(f"{ps.task}.end", a) for a in args)
+
+    def local_cases(e, at, depth=0):
+        """an unresolved local split into the values of its reaching definitions (if / else branches, conditional overwrite)"""
+        if isinstance(e, ast.Name) and e.id not in ps.f.params and depth < 4 and at is not None:
+            out = []
+            for d in ps.fl.reaching(e.id, at):
+                if d.kind != 'assign' or d.value is None or d.node is None:
+                    return [([], e)]
+                dconds = [c_ for c_ in ps.conds(d.stmt) if not any(c_[0] is b_[0] for b_ in ps.conds(sts[0][0]))]
+                for cc, c in sched.expr_cases(ps.ex.expand(d.value, d.node, stop={e.id} | ({pt0['name']} if pt0 else set()))):
+                    if any(isinstance(x, ast.Name) and x.id == e.id for x in ast.walk(c)):
+                        # `start = min(task.start, start)`: the overwritten value appears inside: substitute its own cases
+                        for cc2, inner in local_cases(e, d.node, depth + 1):
+                            from sa.flow import subst
+                            out.append((dconds + cc + cc2, subst(c, {e.id: inner})))
+                    else:
+                        out.append((dconds + cc, c))
+            return out or [([], e)]
+        return [([], e)]
+
     covered_user_start = False
     for st, tgt, val, reg in sts:
         v = ps.ex.expand(val, ps.cfg.node_of(st))
-        cases = sched.expr_cases(v)
+        cases = []
+        for cc, c in sched.expr_cases(v):
+            for cc2, c2 in local_cases(c, ps.cfg.node_of(st)):
+                cases.append((cc + cc2, c2))
 
         def kept_because_earlier(cc, c):
             """the case keeps the user's start under a test that says it is not later than the computed one"""
@@ -711,7 +796,14 @@ def backward_leaf_start(ctx, o, ps: PassShape):
                                 (user_right and ((gt and q) or (lt and not q)) and from_fill(l)):
                             return True
             return False
-        bad = [c for cc, c in cases if not from_fill(c) and not kept_because_earlier(cc, c)]
+        bad = [c for cc, c in cases if not from_fill(c) and not kept_because_earlier(cc, c) and not end_or_earlier(c)]
+        pt_ = ps.prereq_term()
+        known_wrong = [b for b in bad if isinstance(b, ast.Name) and (b.id == ps.bound or (pt_ is not None and b.id == pt_['name']))]
+        if known_wrong:
+            o.refute(ps.f, st, st, f"backward: on one path the leaf start is `{src(known_wrong[0])}` (the bound taken from the successors / the "
+                                   f"project end), not the start computed by the fill from the task's end: the end was already moved back to a "
+                                   f"free day of the resource, so this start can lie after the end")
+            return
         if bad:
             if any(isinstance(x, ast.Name) and x.id not in ps.f.params for b in bad for x in ast.walk(b) if isinstance(x, ast.Name) and x.id != ps.task
                    and ps.fl.defs_of(x.id)):
